@@ -256,3 +256,21 @@ def isinstance_value(prog, t, subject, C):
         if all(k[0] == 'classref' for k in ks):
             return C is not None and any(prog.is_subclass(C, k[1]) for k in ks)
     return None
+
+
+def split_value_ite(effects):
+    """A store of `a if c else b` is the same as the store of a under c and of b
+    under not c: expand such effects so that rules that read one row per stored
+    value see the same rows for either spelling."""
+    out = []
+    for e in effects:
+        v = e.get('value')
+        if isinstance(v, tuple) and v and v[0] == 'ite':
+            for val, pol in ((v[2], True), (v[3], False)):
+                e2 = dict(e)
+                e2['value'] = val
+                e2['cond'] = tuple(e['cond']) + ((v[1], pol),)
+                out.extend(split_value_ite([e2]))
+        else:
+            out.append(e)
+    return out
